@@ -244,7 +244,7 @@ func embedAll(r *core.Rng, ec *exifCase, big bool) []embedded {
 	p := gen.BuildPNG(r, t.Bytes, r.Range(0, 4), r.Range(0, 2))
 	out = append(out, embedded{name: "PNG", bytes: p.Bytes, it: 2, decs: []decodeFn{dDecodePng}})
 	// HEIF
-	h := gen.BuildHEIF(r, t.Bytes, r.Intn(8))
+	h := gen.BuildHEIF(r, t.Bytes, r.Intn(16))
 	out = append(out, embedded{name: "HEIF", bytes: h, it: 6, decs: []decodeFn{dDecode, dDecodeHeif, dDecodeTiff}})
 	// CR3: one TIFF blob per directory
 	parts := gen.CR3Parts{CMT1: ec.buildPart(big, 0).Bytes}
